@@ -766,10 +766,11 @@ func (sched *StdScheduler) fetchAndReschedule() (ScheduledJob, bool, error) {
 	job, err := sched.queue.Pop()
 	if err != nil {
 		if errors.Is(err, ErrQueueEmpty) {
+			// the queue reported a size and a head but has nothing to pop
 			sched.logger.Debug("Queue is empty")
-			return nil, false, nil
+		} else {
+			sched.logger.Error("Failed to fetch a job from the queue", "error", err)
 		}
-		sched.logger.Error("Failed to fetch a job from the queue", "error", err)
 		return nil, false, err
 	}
 
